@@ -53,6 +53,7 @@ theorem tie_h_rest_load_dag_condition_go : Extracted.Load.h_rest_load_dag_condit
 theorem tie_h_rest_load_patternutil_patternutil_go : Extracted.Load.h_rest_load_patternutil_patternutil_go = Canon.Load.h_rest_load_patternutil_patternutil_go := by decide +kernel
 theorem tie_h_rest_load_persistence_model_status_go : Extracted.Load.h_rest_load_persistence_model_status_go = Canon.Load.h_rest_load_persistence_model_status_go := by decide +kernel
 theorem tie_h_rest_load_persistence_model_node_go : Extracted.Load.h_rest_load_persistence_model_node_go = Canon.Load.h_rest_load_persistence_model_node_go := by decide +kernel
+theorem tie_h_rest_load_persistence_local_dag_store_go : Extracted.Load.h_rest_load_persistence_local_dag_store_go = Canon.Load.h_rest_load_persistence_local_dag_store_go := by decide +kernel
 theorem tie_builderFields : Extracted.Load.builderFields = Canon.Load.builderFields := by decide +kernel
 theorem tie_callEdges : Extracted.Load.callEdges = Canon.Load.callEdges := by decide +kernel
 theorem tie_defStructs : Extracted.Load.defStructs = Canon.Load.defStructs := by decide +kernel
@@ -109,6 +110,7 @@ theorem tie_entryOpts : Extracted.Load.entryOpts = Canon.Load.entryOpts := by de
 #print axioms tie_h_rest_load_patternutil_patternutil_go
 #print axioms tie_h_rest_load_persistence_model_status_go
 #print axioms tie_h_rest_load_persistence_model_node_go
+#print axioms tie_h_rest_load_persistence_local_dag_store_go
 #print axioms tie_builderFields
 #print axioms tie_callEdges
 #print axioms tie_defStructs
